@@ -2,7 +2,7 @@
 (* Second, independently written model of multi-round consistent sampling (property C10).
    Cards are 1..NCards and are numbered in sample-number order (card i has the i-th smallest
    sample number).  style[i] is the set of contests card i lists.  A round raises the sample
-   size of one contest by one and then either REDRAWS the sample from scratch or CONTINUES
+   size of one or both contests by one and then either REDRAWS the sample from scratch or CONTINUES
    from the cards already selected.  The model is written from the property text (each contest
    gets the first cards of its own order; escalation only ever extends the evidence), not from
    the code; checks/c10_tla.py replays every edge of the reachable graph on the implementation. *)
@@ -33,17 +33,19 @@ Init == /\ style \in [Cards -> SUBSET Contests]
         /\ sampled = {}
         /\ thr = [c \in Contests |-> 0]
 
-Raise(k) == /\ size[k] < Cardinality(Listing(k))
-            /\ size' = [size EXCEPT ![k] = @ + 1]
+(* a round raises the sample size of every contest of a non-empty set K by one *)
+Raise(K) == /\ K # {}
+            /\ \A k \in K : size[k] < Cardinality(Listing(k))
+            /\ size' = [c \in Contests |-> IF c \in K THEN size[c] + 1 ELSE size[c]]
             /\ UNCHANGED style
 
-Redraw == \E k \in Contests : /\ Raise(k)
-                               /\ sampled' = Fresh(size')
-                               /\ thr' = Thr(size')
+Redraw == \E K \in SUBSET Contests : /\ Raise(K)
+                                      /\ sampled' = Fresh(size')
+                                      /\ thr' = Thr(size')
 
-Continue == \E k \in Contests : /\ Raise(k)
-                                 /\ sampled' = sampled \cup Fresh(size')
-                                 /\ thr' = Thr(size')
+Continue == \E K \in SUBSET Contests : /\ Raise(K)
+                                        /\ sampled' = sampled \cup Fresh(size')
+                                        /\ thr' = Thr(size')
 
 Next == Redraw \/ Continue
 Spec == Init /\ [][Next]_vars
